@@ -136,6 +136,19 @@ def rule_r1_r2(ctx, F, rule1='C04-R1', rule2='C04-R2', only_field=None):
                                             'Index::index', 'Deref::deref', 'AsRef::as_ref', 'Vec::as_slice', 'Borrow::borrow')))
                                         if ov.kind == 'arg' and ov.key == 1 and ov.fields()[:1] == ('.' + f,):
                                             derived = True
+                        if not derived and not elem_feeds:
+                            # the field is read, but what reaches the hasher is neither the field, nor a view of
+                            # it, nor its elements one by one. A per-element hasher (HashableHashSet/Map: the
+                            # elements are hashed into inner hashers whose results are fed) is judged by R3/R4/R6;
+                            # anything else is a digest - a count, a length, a sum - that forgets which elements
+                            inner = [c for bb_ in bodies_with_closures(F, nb) for c in bb_.calls
+                                     if c.is_('Hasher::finish', 'BuildHasher::hash_one')]
+                            if not inner:
+                                ctx.bad(rule1, 'self.%s-fed-as-itself' % f, body,
+                                        '%s::hash reads `%s` but feeds the hasher only something computed from it (a '
+                                        'count / length / sum): values that differ in `%s` but agree in that digest '
+                                        'are fed to the hasher identically' % (adt['path'], f, f))
+                            continue
                         if derived or not elem_feeds:
                             continue  # a view of the field (a sub-slice) is fed / per-element hashers: R3, R4, R6
                         okk = True
